@@ -214,7 +214,12 @@ def readback_specs():
                 ("(b . #((%s a)))" % kw, L(b, tail=V(L(S(kw), a)))), ("((%s a) . b)" % kw, L(L(S(kw), a), tail=b)),
                 ("(%s)" % kw, L(S(kw))), ("(%s a b)" % kw, L(S(kw), a, b)), ("(%s . a)" % kw, L(S(kw), tail=a)), ("#(%s a)" % kw, V(S(kw), a)),
                 ("(a %s b)" % kw, L(a, S(kw), b)), ("(%s (%s a))" % (kw, kw), L(S(kw), L(S(kw), a))), ("(%s #(a))" % kw, L(S(kw), V(a))),
-                ("(%s (a b))" % kw, L(S(kw), L(a, b)))]
+                ("(%s (a b))" % kw, L(S(kw), L(a, b))),
+                # the same heads on improper lists: exactly one element after the keyword, and a tail
+                ("(%s a . b)" % kw, L(S(kw), a, tail=b)), ("(%s a b . c)" % kw, L(S(kw), a, b, tail=c)), ("(%s (a) . b)" % kw, L(S(kw), L(a), tail=b)),
+                ("#((%s a . b))" % kw, V(L(S(kw), a, tail=b))), ("(c (%s a . b))" % kw, L(c, L(S(kw), a, tail=b))),
+                ("(%s a . #(b))" % kw, L(S(kw), a, tail=V(b))), ("(%s %s . a)" % (kw, kw), L(S(kw), S(kw), tail=a)),
+                ("(a . (%s b))" % kw, L(a, S(kw), b)), ("(a %s . b)" % kw, L(a, S(kw), tail=b))]
     # plain symbols over the whole identifier alphabet of R7RS 7.1.1 (ordinary and peculiar, every kind of subsequent): printed bare,
     # they must read back as that symbol — alone and as a vector element
     from . import tokenclass
